@@ -362,6 +362,52 @@ def case_sweep(case):
     return {"n": n, "bad": bad}
 
 
+def case_large_arrays(case):
+    """arrays longer than the block sizes a chunked implementation would use (65536 +- 1, 70000, 2^17 + 5, 200000): every
+    element converted with the exact factor, element 0, the elements around every multiple of 4096 / 65536 and the last one
+    included; there-and-back; same-system identity"""
+    U = _objs()
+    import numpy as np
+    r = random.Random(case["seed"])
+    bad, n = [], 0
+    for _ in range(case["n"]):
+        A, B = (tuple(gen_mild(r)) for _ in range(2))
+        d3 = tuple(r.randint(-2, 2) for _ in range(3))
+        L = r.choice([65535, 65536, 65537, 70000, 2 ** 17 + 5, 200000, 4097, 8192])
+        cont = r.choice(["float64", "float64", "list", "float32"])
+        vals = np.array([r.uniform(-5, 5) for _ in range(64)] * (L // 64 + 1))[:L] * np.linspace(1.0, 2.0, L)
+        raw = vals.tolist() if cont == "list" else vals.astype(getattr(np, cont))
+        ref_vals = np.array(raw, dtype=float)
+        arr = U.UnitArray(raw, U.Units(mk_sys(U, A), mk_dim(U, d3)))
+        f = si.factor(A, B, d3)
+        ca = arr.convert(mk_sys(U, B))
+        got = np.array(ca.value, dtype=float)
+        n += 1
+        if got.shape != ref_vals.shape:
+            bad.append({"what": "large array: length changed", "length": L, "got": list(got.shape)})
+            continue
+        want = ref_vals * float(f)
+        dev = np.abs(got - want) > 1e-12 * np.abs(want)
+        if dev.any():
+            k = int(np.argmax(dev))
+            bad.append({"what": "large array: an element was not converted with the factor", "length": L, "container": cont, "element": k,
+                        "first_wrong": int(np.flatnonzero(dev)[0]), "wrong_elements": int(dev.sum()), "A": A, "B": B, "dim": d3,
+                        "got": float(got[k]), "expected": float(want[k])})
+            continue
+        back = np.array(ca.convert(mk_sys(U, A)).value, dtype=float)
+        if (np.abs(back - ref_vals) > 1e-12 * np.abs(ref_vals)).any():
+            bad.append({"what": "large array: A->B->A", "length": L, "A": A, "B": B, "dim": d3})
+        same = np.array(arr.convert(mk_sys(U, A)).value, dtype=float)
+        if same.tobytes() != ref_vals.tobytes():
+            bad.append({"what": "large array: same-system conversion is not the identity", "length": L})
+    return {"n": n, "bad": bad[:10]}
+
+
+def gen_mild(r):
+    from vf import gen
+    return gen.mild_sys(r)
+
+
 # ---------------------------------------------------------------------------
 
 def main():
@@ -383,6 +429,8 @@ def main():
     per = 2500 if thorough else 500
     for b in range(nblocks):
         cases.append(("vf.checks.c06:case_random_block", {"seed": "%d/%d" % (seed(), b), "n": per}))
+    for b in range(32 if thorough else 8):
+        cases.append(("vf.checks.c06:case_large_arrays", {"seed": "%d/L%d" % (seed(), b), "n": 6 if thorough else 3}))
     if thorough:
         rr = random.Random(seed())
         dims = [(1, 0, 0), (0, 1, 0), (0, 0, 1), (-3, 0, 1), (3, -1, -1), (2, -1, 0),
@@ -402,7 +450,10 @@ def main():
                     else run.inconclusive_because("%s on %s: %s" % (r_["status"], f, str(r_)[:300]))
                 continue
             v = r_["value"]
-            if f.endswith("case_pairs_exhaustive") or f.endswith("case_derived_symbols") or f.endswith("case_sweep"):
+            if f.endswith("case_large_arrays"):
+                run.count("large_array_conversions", v["n"])
+                run.case("large-arrays" + chash(c), nontrivial=True, sample={"workload": "case_large_arrays", **c})
+            elif f.endswith("case_pairs_exhaustive") or f.endswith("case_derived_symbols") or f.endswith("case_sweep"):
                 run.count("factor_checks", v["n"])
                 name = f.split(":")[1] + "/" + str(c.get("kind", ""))
                 run.case(name + chash(c), nontrivial=True, sample={"workload": f.split(":")[1], **{k: c[k] for k in c if k != "srcs"}})
